@@ -8,7 +8,7 @@
 // RebalanceDelay = 2.5 s the heartbeat pass runs at t = 5, 10 s and the leader's
 // monitor pass at t = 7.5, 12.5 s, so a scenario has two phases
 // (ping-failure set 1 in force from t = 0, set 2 added at t = 8.75 s) and takes
-// 13.75 s; all scenarios of a run execute concurrently.
+// 18.75 s (incl. the leadership flap after phase 2); all scenarios of a run execute concurrently.
 package main
 
 import (
@@ -225,6 +225,19 @@ func sdRun(s *sdScenario) (res string) {
 	phase2.Unlock()
 	time.Sleep(time.Until(t0.Add(13750 * time.Millisecond)))
 	s2 := take()
+	// a leadership flap with an unchanged follower set (lease lost and won again): the next monitor round (t = 17.5 s) computes the
+	// numbering that is already in effect - it must NOT be announced again (C10: "announced only when it differs")
+	sd.DontBeLeader()
+	sd.BeLeader()
+	time.Sleep(time.Until(t0.Add(18750 * time.Millisecond)))
+	s3 := take()
+	flap := leaderEv.snapshot()[s2.leader:s3.leader]
+	before := leaderEv.snapshot()[:s2.leader]
+	if len(flap) > 0 && len(before) > 0 && flap[0] == before[len(before)-1] {
+		sd.StopMonitor()
+		sd.StopHeartbeat()
+		return "flap-reannounced " + strings.ReplaceAll(mbFmt(flap), " ", "+")
+	}
 	sd.StopMonitor()
 	sd.StopHeartbeat()
 	closed := map[int]bool{}
@@ -398,5 +411,5 @@ func runC10Sd(c *Ctx) {
 		}
 		c.E.EndCase(len(s.jts) >= 2, tags...)
 	}
-	c.Extra["scenario_wall_s"] = 13.75
+	c.Extra["scenario_wall_s"] = 18.75
 }
